@@ -72,11 +72,12 @@ func runC11(tier string) int {
 		maxK, maxDeco = 5, 2
 	}
 	type job struct {
-		k      int
-		tree   *model.Cond
-		autos  []int // leaf indices that are AutoVar leaves
-		kindOf int
-		formOf int
+		k        int
+		tree     *model.Cond
+		autos    []int // leaf indices that are AutoVar leaves
+		kindOf   int
+		formOf   int
+		sameKind bool // both AutoVar leaves call the same command (with different arguments)
 	}
 	var jobs []job
 	for k := 1; k <= maxK; k++ {
@@ -92,7 +93,10 @@ func runC11(tier string) int {
 							if k >= 3 && (kind*7+form*3+a+b)%4 != 0 {
 								continue // rotation for larger trees
 							}
-							jobs = append(jobs, job{k, t, autos, kind, form})
+							jobs = append(jobs, job{k, t, autos, kind, form, false})
+							if len(autos) == 2 && kind != 4 {
+								jobs = append(jobs, job{k, t, autos, kind, form, true})
+							}
 						}
 					}
 				}
@@ -108,6 +112,9 @@ func runC11(tier string) int {
 				for n, a := range j.autos {
 					if a == i {
 						kind := (j.kindOf + n*2) % numAutoKinds
+						if j.sameKind {
+							kind = j.kindOf
+						}
 						if n == 1 && kind == 4 {
 							kind = 0 // at most one inline text per program
 						}
@@ -138,7 +145,9 @@ func runC11(tier string) int {
 		case 2:
 			body = []model.Stmt{{Kind: model.SWhile, Cond: mflag("LC"), Body: []model.Stmt{sw, mcmd("z")}}, mcmd("zz")}
 		default:
-			body = []model.Stmt{{Kind: model.SIf, Arms: []model.Arm{{Cond: mflag("G"), Body: []model.Stmt{sw}}}, HasElse: true, Else: []model.Stmt{mcmd("e")}}, mcmd("z")}
+			// the same command was already used in a condition with other arguments
+			prev := autoLeaf(kind, 2, 7)
+			body = []model.Stmt{{Kind: model.SIf, Arms: []model.Arm{{Cond: &model.Cond{Kind: model.CLeaf, Leaf: prev}, Body: []model.Stmt{sw}}}, HasElse: true, Else: []model.Stmt{mcmd("e")}}, mcmd("z")}
 		}
 		c11Eval(r, &model.Script{Name: "S", Body: body}, copts, fmt.Sprintf("switch operand kind=%d ctx=%d", kind, ctx), true)
 	})
